@@ -85,6 +85,8 @@ def do_sop(env, st, i):
     before = describe(m)
     if meta.kind == 'wide':
         other = [int(b) for b in st['bits']]
+        if st.get('as_tuple'):
+            other = tuple(other)       # the operators accept a tuple or a list of bit positions
         val = 0
         for b in other:
             val |= 1 << b
@@ -892,7 +894,7 @@ def do_bits(env, st, i):
     try:
         with warnings.catch_warnings():
             warnings.simplefilter('ignore')
-            fn(np.array(pixels, dtype=np.int64), bits)
+            fn(np.array(pixels, dtype=np.int64), tuple(bits) if st.get('as_tuple') else bits)
         raised = None
     except ValueError as e:
         raised = 'ValueError'
@@ -939,7 +941,8 @@ def do_chkbits(env, st, i):
     pairs = []
     for bits in st['bitlists']:
         bits = [int(b) for b in bits]
-        got, err = run_api(i, 'check_bits_pix', lambda: [int(x) for x in m.check_bits_pix(allpix, bits)])
+        arg = tuple(bits) if st.get('as_tuple') else bits
+        got, err = run_api(i, 'check_bits_pix', lambda: [int(x) for x in m.check_bits_pix(allpix, arg)])
         if err:
             pairs += fail(i, err)
             continue
@@ -1181,9 +1184,14 @@ def do_sameas_if(env, st, i):
 def do_mklike(env, st, i):
     h, out = st['h'], st['out']
     m = env.maps[h]
-    res, err = run_api(i, 'make_empty_like', lambda: HealSparseMap.make_empty_like(m))
+    kw = {}
+    if st.get('bit_packed') is not None:
+        kw['bit_packed'] = bool(st['bit_packed'])      # the other storage kind of a boolean map
+    res, err = run_api(i, 'make_empty_like', lambda: HealSparseMap.make_empty_like(m, **kw))
     if err:
         return fail(i, err)
+    if 'bit_packed' in kw and bool(res.is_bit_packed_map) != kw['bit_packed']:
+        return fail(i, 'make_empty_like(bit_packed=%s) returned a map of the other storage kind' % kw['bit_packed'])
     env.put(out, res)
     meta = env.meta[h]
     return [(hsops.mk_model_op(out, env.meta[out], res, None), expect_ok(i, 'mklike'))]
